@@ -1,37 +1,34 @@
 /-
-  The SCORE laws of the search skeleton (`Search.ScoreLaws`, Proofs/SearchScoreLaws.lean) for the real
-  component models — and the one law that does NOT hold for them.
+  The SCORE laws of the search skeleton (`Search.ScoreLaws`, `Search.AspLaws`) for the real component
+  models, and what the real null-move test lacks.
 
-  `ScoreLaws` demands (`nmp_floor`) that null-move pruning is not tried with `beta` below the mate
-  band.  search.go guards reverse futility pruning that way (`beta > -Inf+MaxPlies`), but NOT the
+  search.go guards reverse futility pruning against the mate band (`beta > -Inf+MaxPlies`) but NOT the
   null move: `d > NMPDepthLimit && staticEval >= beta && (non-pawn material)`.  When an ancestor has
   already found a mate (its alpha is `Inf - k`), a descendant at ply `p > k` is searched with
   `beta = -(Inf - k) < -(Inf - p)`; if the reduced null search there returns a mate score
-  (`>= Inf - MaxPlies`) the node returns `beta` — a score no position at ply `p` can have — and its
-  parent's fail-low store hands `Inf - k` to the table at ply `p - 1`, where `Insert` re-bases it to
-  `Inf - k + p - 1 > Inf`.  So the table invariant "raw values within ±Inf" (`TTValsOK`, the real
-  reading of `TTok`) is not preserved by the real `nmpTry` in full generality.  (The reduced depth is
-  `d - 4 - clamp((staticEval - beta)/51, 0, 64)`: the null search is deeper than quiescence only when
-  `staticEval <= beta + 51 (d - 5)`, i.e. the side to move evaluates thousands of centipawns behind
-  and still mates after passing; not reproduced on the engine.)
-
-  Therefore the laws are proved for `realCompG K cs` — `realCompWith K cs` with the guard
-  `beta > -Inf+MaxPlies` (the constant `Gen.Search.rfpBetaFloor` that RFP uses) added to `nmpTry` —
-  and the closed theorems about `realComp K` (Props/C06real.lean) carry the run-level hypothesis
-  `NmpSane`: the run coincides with the run of the guarded record (no null-move cut-off below the
-  mate band happened).  With the one-line guard in search.go the hypothesis disappears.
+  (`>= Inf - MaxPlies`) the node takes the mate branch and returns `beta` — a score no position at ply
+  `p` can have — and if its parent then fails low, the parent's store hands `Inf - k` to the table at
+  ply `p - 1`, where `Insert` re-bases it to `Inf - k + p - 1 > Inf`.  The skeleton records the event
+  in the ghost flag `St.nmpOut` (Model/Search.lean `nullMove`); the range development
+  (Proofs/SearchScore{Q,AB,Root,Go,Free}.lean, Proofs/SearchFinalFree.lean) is guarded by it.
 
     TTokReal ps  := PSok ps ∧ TTValsOK ps.tt      (raw table values within ±Inf)
     muReal       := men + pawns                    (Proofs/SearchRealMeasure.lean)
     tt_probe / tt_store   `Value(ply)` / `Insert(…, ply, …)` re-basing (Proofs/SearchRealScoreTT.lean)
-    rfp_sound, nmp_sound, nmp_floor, lmr_late, window
+    rfp_sound, nmp_sound, lmr_late, window, AspLaws
                           arithmetic over the regenerated constants of Gen/Search.lean
+
+  `real_scoreLaws_with` / `real_aspLaws_with`: the laws hold for `realCompWith K cs` (the unguarded,
+  real record).  `realCompG K cs` is the same record with the guard added to `nmpTry`; it satisfies
+  `NmpFloor` (`nmpFloor_realCompG`), so its runs never raise the flag (Proofs/SearchNmpFloor.lean),
+  while `realCompWith` does not (`nmp_floor_fails`).
 -/
 import ChessVerif.Proofs.SearchRealLaws
 import ChessVerif.Proofs.SearchRealScoreTT
 import ChessVerif.Proofs.SearchRealMeasure
 import ChessVerif.Proofs.SearchScoreGo
 import ChessVerif.Proofs.SearchScoreFree
+import ChessVerif.Proofs.SearchNmpFloor
 
 namespace ChessVerif
 namespace SearchReal
@@ -49,8 +46,7 @@ def realCompG (K : Keys) (cs : Eval.CoeffSet Int) : Comp PS Pick :=
     `beta = -(Inf - 1)`): `ScoreLaws.nmp_floor` is false of `realCompWith`. -/
 theorem nmpTry_below_floor : nmpTry Props.C05.start 2 0 (-9999) = true := by decide
 
-theorem nmp_floor_fails (K : Keys) (cs : Eval.CoeffSet Int) :
-    ¬ (∀ b d se beta, (realCompWith K cs).nmpTry b d se beta = true → (-9936 : Int) ≤ beta) :=
+theorem nmp_floor_fails (K : Keys) (cs : Eval.CoeffSet Int) : ¬ NmpFloor (realCompWith K cs) :=
   fun h => absurd (h Props.C05.start 2 0 (-9999)
     (show (realCompWith K cs).nmpTry Props.C05.start 2 0 (-9999) = true from nmpTry_below_floor)) (by decide)
 
@@ -98,44 +94,80 @@ theorem rfpCut_sound (d : Int) (se beta : Score) (hd : 0 ≤ d) (hb : beta ≤ r
 
 /-- the parameter laws of the `GoSane`-free argument: `WindowSize = 44`, and at depths ≤ 2 the reverse
     futility margin `beta + d·102` cannot wrap for `beta ≤ Inf + 512·44`. -/
+theorem real_aspLaws_with (K : Keys) (cs : Eval.CoeffSet Int) : AspLaws (realCompWith K cs) where
+  window44 := rfl
+  rfp_shallow := fun d se beta hd hd2 hb h => rfpCut_sound' d se beta hd (by simp only [Score] at *; omega) h
+
 theorem real_aspLaws (K : Keys) (cs : Eval.CoeffSet Int) : AspLaws (realCompG K cs) where
   window44 := rfl
   rfp_shallow := fun d se beta hd hd2 hb h => rfpCut_sound' d se beta hd (by simp only [Score] at *; omega) h
 
-theorem real_scoreLaws (K : Keys) (cs : Eval.CoeffSet Int) :
-    ScoreLaws (realCompG K cs) RealGood TTokReal muReal where
+/-- the score laws for any record that agrees with the real one in the fields the laws speak about and
+    whose null-move test implies the real one. -/
+theorem scoreLaws_of_isReal {K : Keys} {c : Comp PS Pick} (hc : IsReal K c) (hrfp : c.rfpCut = rfpCut)
+    (hnmp : ∀ b d se beta, c.nmpTry b d se beta = true → nmpTry b d se beta = true) (hlmr : c.lmrTry = lmrTry)
+    (hwin : c.windowSize = Gen.Search.params_WindowSize) :
+    ScoreLaws c RealGood TTokReal muReal where
   tt_ok := fun _ h => h.1
-  tt_probe := fun ps b ply e h h0 h1 he => ttProbe_valueOK h.2 h0 h1 he
-  tt_store := fun ps b d ply m v bd h h0 h1 hv hok => ⟨hok, ttStore_valsOK h.2 b d h0 h1 m bd hv⟩
-  tt_failHigh := fun ps d b p hs h => ⟨failHigh_ok h.1 d b p hs, by
-    show TTValsOK (failHigh ps d b p hs).tt
-    rw [failHigh_tt]; exact h.2⟩
-  tt_nextGen := fun ps h => ⟨nextGen_ok h.1, by
-    show TTValsOK (nextGen ps).tt
-    rw [nextGen_tt]; exact h.2⟩
-  nmp_floor := fun b d se beta h => by
+  tt_probe := fun ps b ply e h h0 h1 he => by
+    rw [hc.ttProbe] at he
+    exact ttProbe_valueOK h.2 h0 h1 he
+  tt_store := fun ps b d ply m v bd h h0 h1 hv hok => by
+    refine ⟨hok, ?_⟩
+    rw [hc.ttStore]
+    exact ttStore_valsOK h.2 b d h0 h1 m bd hv
+  tt_failHigh := fun ps d b p hs h => by
+    rw [hc.failHigh]
+    exact ⟨failHigh_ok h.1 d b p hs, by
+      show TTValsOK (failHigh ps d b p hs).tt
+      rw [failHigh_tt]; exact h.2⟩
+  tt_nextGen := fun ps h => by
+    rw [hc.nextGen]
+    exact ⟨nextGen_ok h.1, by
+      show TTValsOK (nextGen ps).tt
+      rw [nextGen_tt]; exact h.2⟩
+  rfp_sound := fun d se beta hd hb h => by
+    rw [hrfp] at h
+    exact rfpCut_sound d se beta hd hb h
+  nmp_sound := fun b d se beta h => by
+    have h' := hnmp b d se beta h
+    unfold nmpTry at h'
+    simp only [Bool.and_eq_true] at h'
+    exact of_decide_eq_true h'.1.2
+  lmr_late := fun d q h => by
+    rw [hlmr] at h
+    unfold lmrTry at h
+    simp only [Bool.and_eq_true] at h
+    exact Int.le_of_lt (of_decide_eq_true h.2)
+  window := by
+    rw [hwin]
+    decide
+  q_measure := fun ps b hs m w hg h => by
+    rw [hc.qMoves] at h
+    rw [hc.keys]
+    exact mu_make_noisy K hg (qMoves_mem h)
+  measure_bound := fun b hg => mu_le b hg
+
+/-- **The score laws hold for the real components** — the unguarded record: what the missing guard can
+    do is recorded by the ghost flag `St.nmpOut`, and the theorems are guarded by it. -/
+theorem real_scoreLaws_with (K : Keys) (cs : Eval.CoeffSet Int) :
+    ScoreLaws (realCompWith K cs) RealGood TTokReal muReal :=
+  scoreLaws_of_isReal (isReal_realCompWith K cs) rfl (fun _ _ _ _ h => h) rfl rfl
+
+theorem real_scoreLaws (K : Keys) (cs : Eval.CoeffSet Int) :
+    ScoreLaws (realCompG K cs) RealGood TTokReal muReal :=
+  scoreLaws_of_isReal (isReal_realCompG K cs) rfl (fun b d se beta h => by
     have h' : nmpTryG b d se beta = true := h
     unfold nmpTryG at h'
     simp only [Bool.and_eq_true] at h'
-    exact Int.le_of_lt (of_decide_eq_true h'.2)
-  rfp_sound := fun d se beta hd hb h => rfpCut_sound d se beta hd hb h
-  nmp_sound := fun b d se beta h => by
-    have h' : nmpTryG b d se beta = true := h
-    unfold nmpTryG nmpTry at h'
-    simp only [Bool.and_eq_true] at h'
-    exact of_decide_eq_true h'.1.1.2
-  lmr_late := fun d q h => by
-    have h' : lmrTry d q = true := h
-    unfold lmrTry at h'
-    simp only [Bool.and_eq_true] at h'
-    exact Int.le_of_lt (of_decide_eq_true h'.2)
-  window := by
-    show (0 : Int) ≤ Gen.Search.params_WindowSize ∧ Gen.Search.params_WindowSize ≤ 100
-    decide
-  q_measure := fun ps b hs m w hg h => by
-    have h' : (m, w) ∈ qMoves ps b hs := h
-    exact mu_make_noisy K hg (qMoves_mem h')
-  measure_bound := fun b hg => mu_le b hg
+    exact h'.1) rfl rfl
+
+/-- the guarded record never raises the flag. -/
+theorem nmpFloor_realCompG (K : Keys) (cs : Eval.CoeffSet Int) : NmpFloor (realCompG K cs) := fun b d se beta h => by
+  have h' : nmpTryG b d se beta = true := h
+  unfold nmpTryG at h'
+  simp only [Bool.and_eq_true] at h'
+  exact Int.le_of_lt (of_decide_eq_true h'.2)
 
 theorem ttokReal_new (buckets : Nat) : TTokReal (newEngine buckets).ps := ⟨new_ok buckets, new_valsOK buckets⟩
 theorem ttokReal_clear (e : Engine PS) : TTokReal (clearEngine e).ps := ⟨clear_ok e.ps, clear_valsOK e.ps⟩
